@@ -295,8 +295,8 @@ func cases(thorough bool) []tcase {
 	maxL := 4
 	batches := []int{1, 2, 3, 0}
 	if thorough {
-		maxL = 6
-		batches = []int{1, 2, 3, 4, 0}
+		maxL = 9
+		batches = []int{1, 2, 3, 4, 5, 0}
 	}
 	var l []tcase
 	for ci, cfg := range configs {
